@@ -107,7 +107,7 @@ def _case(seed: int) -> Dict[str, Any]:
                 graphs = []
                 for inst in (0, 1):
                     try:
-                        g, ok = ta.critical_path_analysis(rank=0, annotation="ProfilerStep", instance_id=inst)
+                        g, ok = rt.lib(fails, "critical_path_analysis", inp, ta.critical_path_analysis, rank=0, annotation="ProfilerStep", instance_id=inst, _allow=(AssertionError,))
                     except AssertionError:
                         continue
                     if ok:
@@ -170,12 +170,17 @@ def bounded(ctx):
 
 
 def units(ctx):
-    return [core.Unit(f"{PROP}.correspondence", correspondence_vcs, [CPA + ".CPGraph.save", CPA + ".restore_cpgraph"])]
+    from contracts import C09
+
+    # "recomputing the critical path on the restored graph": critical_path() under contract for ARBITRARY stale
+    # critical_path_nodes / events / edges sets (whatever save/restore carried over), see contracts/C09.py
+    return [core.Unit(f"{PROP}.correspondence", correspondence_vcs, [CPA + ".CPGraph.save", CPA + ".restore_cpgraph"]),
+            core.Unit(f"{PROP}.recompute", lambda: C09.critical_path_exec_vcs(PROP), [CPA + ".CPGraph.critical_path"])]
 
 
 SPEC = Spec(
     prop=PROP, level="other",
-    functions=[(CPA, "CPGraph.save"), (CPA, "restore_cpgraph"), (CPA, "_CPGraphData")],
+    functions=[(CPA, "CPGraph.save"), (CPA, "restore_cpgraph"), (CPA, "_CPGraphData"), (CPA, "CPGraph.critical_path")],
     units=units, bounded=[Bounded("restore_vs_original", bounded)],
     trusted=["pickle.load(pickle.dump(x)) = x; nx.node_link_graph(nx.node_link_data(G)) is isomorphic to G incl. edge attributes; read_csv(to_csv(df)) equals df on the columns the "
              "breakdown reads (strings such as 'NA' / 'nan' read back as NaN are NOT covered); zip extraction restores the written bytes"],
